@@ -497,6 +497,11 @@ Theorem C07_pickle_hooks_as_coded : hooks_faithful src_pickle_hooks = true.
 Proof. vm_compute. reflexivity. Qed.
 Print Assumptions C07_pickle_hooks_as_coded.
 
+(* ... and a group executes exactly the models that are switched on, in order (`executed`): ModelGroup.__iter__ / run *)
+Theorem C07_group_runs_enabled_only_as_coded : src_group_runs_enabled_only = true.
+Proof. vm_compute. reflexivity. Qed.
+Print Assumptions C07_group_runs_enabled_only_as_coded.
+
 (* ... hence, for the code as it is now, UNDER EVERY SCHEDULER KIND (tasks pickled or not): for every pipeline, every
    run function of (pipeline received, values received), every mode and parameter space, every set of distinct keys
    and EVERY completion order, the parallel result computed on what the workers receive and the sequential result
